@@ -346,15 +346,7 @@ func (e *endPoint) dispatch(msg *Message) error {
 				vhook.Emit("endpoint", e, "blocked", "slot", i, "h", vhook.ID(h), "id", msg.Header.ID)
 				ret = ErrConsumerBlocked
 				if msg.Header.Type == Call {
-					hdr := NewHeader(Error,
-						msg.Header.Service,
-						msg.Header.Object,
-						msg.Header.Action,
-						msg.Header.ID)
-					var buf bytes.Buffer
-					val := value.String(ret.Error())
-					val.Write(&buf)
-					e.Send(NewMessage(hdr, buf.Bytes()))
+					e.refuse(msg, ret)
 				}
 			}
 		}
@@ -364,7 +356,24 @@ func (e *endPoint) dispatch(msg *Message) error {
 			e.handlers[i] = nil
 		}
 	}
+	if ret == ErrNoMatch && msg.Header.Type == Call {
+		// nobody is going to answer this call.
+		e.refuse(msg, ret)
+	}
 	return ret
+}
+
+// refuse answers a call which is not processed with an error.
+func (e *endPoint) refuse(msg *Message, err error) {
+	hdr := NewHeader(Error,
+		msg.Header.Service,
+		msg.Header.Object,
+		msg.Header.Action,
+		msg.Header.ID)
+	var buf bytes.Buffer
+	val := value.String(err.Error())
+	val.Write(&buf)
+	e.Send(NewMessage(hdr, buf.Bytes()))
 }
 
 // process read all messages from the end point and dispatch them one
